@@ -377,8 +377,10 @@ func (w *vf09World) apply(op vf09Op) error {
 		w.close()
 		err = w.open()
 	case "resync":
+		w.beforeResync(false)
 		err = w.resync(false)
 	case "resync0":
+		w.beforeResync(true)
 		err = w.resync(true)
 	default:
 		err = fmt.Errorf("unknown op %q", op.Kind)
@@ -455,6 +457,66 @@ func (w *vf09World) dataIn(i int) (inBlob, inWC bool, loc string) {
 	return
 }
 
+// tombIn tells where the bytes of the tombstone of object i are stored right now (component
+// probes, no metabase): a key component of every resurrection, because "the object came back
+// although a tombstone of it is still stored in the blobstor the metabase was rebuilt from"
+// is a different failure than "it came back once no tombstone of it was left".
+func (w *vf09World) tombIn(i int) string {
+	a := w.tombs[i].Address()
+	inBlob, inWC := false, false
+	if _, err := w.sh.blobStor.GetBytes(a); err == nil {
+		inBlob = true
+	}
+	if w.wc && w.sh.hasWriteCache() {
+		if _, err := w.sh.writeCache.GetBytes(a); err == nil {
+			inWC = true
+		}
+	}
+	switch {
+	case inBlob && inWC:
+		return "blobstor+cache"
+	case inBlob:
+		return "blobstor"
+	case inWC:
+		return "cache"
+	}
+	return "nowhere"
+}
+
+// beforeResync records (evidence only) in which tombstone state the coming resync meets the
+// leftover blob of an object that has been removed: no tombstone stored any more, tombstone
+// only in the write-cache (which the offline resync does not read), tombstone in the blobstor
+// and still alive / already expired at the network epoch.
+func (w *vf09World) beforeResync(atZero bool) {
+	if w.sh == nil {
+		return
+	}
+	for i := range w.objs {
+		if !w.m.Removed[i] {
+			continue
+		}
+		inBlob, _, _ := w.dataIn(i)
+		if !inBlob {
+			continue
+		}
+		st := "none-stored"
+		switch w.tombIn(i) {
+		case "cache":
+			st = "only-cached"
+		case "blobstor", "blobstor+cache":
+			st = "in-blobstor-alive"
+			if w.uni.TombExp[i] < w.m.Epoch {
+				st = "in-blobstor-expired-not-collected"
+			}
+		}
+		if atZero {
+			st += "(resync-at-epoch-0)"
+		}
+		w.count("resyncs_meeting_leftover_blob_of_removed_object", 1)
+		w.seen("resync_met_leftover_blob_of_removed_object_with_tombstone", st)
+	}
+}
+
 func (w *vf09World) describe() map[string]any {
 	var sizes []int
 	for _, b := range w.uni.Objects {
@@ -490,8 +552,12 @@ func (w *vf09World) observe(after, extra string) {
 				if w.left != nil {
 					scen += "|crash-left=" + w.left[i]
 				}
-				key := fmt.Sprintf("resurrected|%s|removed-by=%s|back-after=%s|data-in=%s", scen, w.m.Req[i], strings.TrimSuffix(after, "0"), loc)
+				tin := w.tombIn(i)
+				key := fmt.Sprintf("resurrected|%s|removed-by=%s|back-after=%s|data-in=%s|tomb-in=%s", scen, w.m.Req[i], strings.TrimSuffix(after, "0"), loc, tin)
 				d := w.describe()
+				d["tombstone_of_it_stored_in"] = tin
+				d["tombstone_expiration"] = w.uni.TombExp[i]
+				d["network_epoch"] = w.m.Epoch
 				d["detail"] = extra
 				d["object"] = i
 				d["address"] = w.objs[i].Address().String()
@@ -499,8 +565,8 @@ func (w *vf09World) observe(after, extra string) {
 				if w.left != nil {
 					d["left_by_crash"] = w.left[i]
 				}
-				w.report(key, fmt.Sprintf("object %d (%s) was %s, removed as of step %q (removal procedure worked on it, no metadata record left), no Put of it was accepted since, yet after %q %s returns it (data in blobstor=%v, in write-cache=%v)",
-					i, w.objs[i].Address(), w.m.Req[i], w.m.Since[i], after, via, inBlob, inWC), d)
+				w.report(key, fmt.Sprintf("object %d (%s) was %s, removed as of step %q (removal procedure worked on it, no metadata record left), no Put of it was accepted since, yet after %q %s returns it (data in blobstor=%v, in write-cache=%v; its tombstone, expiration %d, is stored in: %s; network epoch %d)",
+					i, w.objs[i].Address(), w.m.Req[i], w.m.Since[i], after, via, inBlob, inWC, w.uni.TombExp[i], tin, w.m.Epoch), d)
 			}
 			w.forget(i) // report one resurrection once
 		case !w.m.Removed[i] && w.m.Req[i] != "" && w.m.Proc[i] && gone && via == "":
@@ -651,13 +717,14 @@ func vf09Continuations(final uint64) [][]vf09Op {
 		{fl, gc, e, gc, gc, rs, rst, gc},   // tombstones expire and are collected, then the metabase is rebuilt
 		{rs, gc, e, gc, rs0, fl, gc, rs},   // rebuilt first (tombstones still alive), later again
 		{rst, fl, e, gc, gc, rst, rs0, gc}, // restart first
+		{fl, e, rs, gc, gc, rst, rs0, gc},  // tombstones expire and the metabase is rebuilt BEFORE any GC pass collected them
 	}
 }
 
 func TestVerif_C09Race(t *testing.T) {
 	r := verifkit.Start(t, "C09", "exploration")
 	defer r.Finish()
-	r.SetRule("case = (which flusher: explicit FlushWriteCache / background single-object flush / background batch flush) x (point where it is parked: after reading the cached bytes and before writing them to the blobstor, or after writing and before the cache removal) x (removal completing meanwhile: drop, tombstone+GC, garbage mark+GC) x (continuation: flush/GC/epoch past tombstone expiry/resync/restart in 3 orders); the schedule is constructed with the pause controller on the flush step points; non-trivial = the flusher really parked, the removal completed while it was parked and the object was observed removed; distinct = (flusher, park point, removal, continuation)")
+	r.SetRule("case = (which flusher: explicit FlushWriteCache / background single-object flush / background batch flush) x (point where it is parked: after reading the cached bytes and before writing them to the blobstor, or after writing and before the cache removal) x (removal completing meanwhile: drop, tombstone+GC, garbage mark+GC) x (continuation: flush/GC/epoch past tombstone expiry/resync/restart in 4 orders, one of them rebuilding the metabase after the tombstones expired but before a GC pass collected them); the schedule is constructed with the pause controller on the flush step points; non-trivial = the flusher really parked, the removal completed while it was parked and the object was observed removed; distinct = (flusher, park point, removal, continuation)")
 	r.Assume("the parked flusher is released only after the removal (and its GC pass) returned; a flusher that does not park within the watchdog is inconclusive, never a verdict")
 	base := os.Getenv("VERIF_SCRATCH")
 	if base == "" {
@@ -672,12 +739,15 @@ func TestVerif_C09Race(t *testing.T) {
 	removals := []string{"drop", "tombstone+gc", "mark+gc"}
 	conts := vf09Continuations(20)
 	idx := 0
-	for _, fl := range flushers {
+	for fi, fl := range flushers {
 		for pi, park := range []string{fl.readPoint, fl.storedPoint} {
-			for _, rm := range removals {
+			for ri, rm := range removals {
 				for ci, cont := range conts {
 					idx++
-					if !r.Thorough() && (idx+int(r.Seed()))%3 != 0 { // quick: a third of the grid, rotated by the seed
+					// quick: a third of the grid, a diagonal rotated by the seed: every (flusher, park
+					// point, removal) cell runs at least one continuation, every continuation runs with
+					// every removal and every park point
+					if !r.Thorough() && (fi+pi+ri+ci+int(r.Seed()))%3 != 0 {
 						continue
 					}
 					vf09RunRace(r, base, idx, vf09RaceCase{Flusher: fl.name, Removal: rm, ParkAt: park, Cont: cont}, fmt.Sprintf("%s|park=%d|%s|cont=%d", fl.name, pi, rm, ci))
@@ -1123,7 +1193,7 @@ func TestVerif_C09Crash(t *testing.T) {
 	}
 	r := verifkit.Start(t, "C09", "fault_enumeration")
 	defer r.Finish()
-	r.SetRule("history = seeded script: 3 objects put (cached, flushed, or both), removal requested by tombstone / drop / garbage mark, GC passes, background flush; case = (history, step point of shard put/delete or write-cache put/delete/flush, k-th hit) from a dry run, the child is SIGKILLed there; every crashed store is copied and continued 3 ways (flush, GC, epoch beyond every tombstone expiration, offline resync, restart in different orders) under the oracle; non-trivial = the child really died at the point; distinct = (history, point, k)")
+	r.SetRule("history = seeded script: 3 objects put (cached, flushed, or both), removal requested by tombstone / drop / garbage mark, GC passes, background flush; case = (history, step point of shard put/delete or write-cache put/delete/flush, k-th hit) from a dry run, the child is SIGKILLed there; every crashed store is copied and continued 4 ways, 2 of them in the quick tier (flush, GC, epoch beyond every tombstone expiration, offline resync, restart in different orders: resync after the expired tombstones were collected, while they are alive, after they expired but before GC collected them) under the oracle; non-trivial = the child really died at the point; distinct = (history, point, k)")
 	r.Assume("the write-cache's background scheduler is held at its hand-off point except inside the 'bgflush' operation (accidental flush/delete interleavings belong to the race part)")
 	r.Assume("process-crash model (SIGKILL at the step boundary; no power loss); the oracle's memory up to the crash is journalled by the child after every completed operation; the operation cut by the crash counts as a removal request (tombstone/drop/mark) or as a new upload (put)")
 	base := os.Getenv("VERIF_SCRATCH")
@@ -1208,7 +1278,9 @@ func TestVerif_C09Crash(t *testing.T) {
 			return
 		}
 		for ci, cont := range conts {
-			if !r.Thorough() && ci == (jb.k+len(jb.name))%3 { // quick: two of the three continuations per case
+			// quick: two neighbouring continuations per case, the pair rotating with the case, so that
+			// every continuation follows half of the crash cases of every history
+			if first := (jb.k + len(jb.name)) % len(conts); !r.Thorough() && ci != first && ci != (first+1)%len(conts) {
 				continue
 			}
 			cp := filepath.Join(dir, fmt.Sprintf("cont%d", ci))
